@@ -286,11 +286,11 @@ theorem mapM_captureValue (s : Subject) : ∀ (caps : List Cap), (∀ c ∈ caps
     `strFind` prescribes — for every subject and every `init` (negative, zero, beyond the end), under the hypotheses
     of `machine_refines_spec_partial` -/
 theorem luaFind_refines (p : Array UInt8) (s : Subject) (init : Int) (pat : LuaPattern.Pat)
-    (hparse : LuaPattern.parse p.toList = .ok pat) (hasc : NoDescendingRange pat) (hnp : NoPosBackref pat.items)
+    (hparse : LuaPattern.parse p.toList = .ok pat)
     (hsize : p.size ≤ Generated.ByteSetTable.maxPatternSize) (hne : p.size ≠ 0) :
     ∃ vs, LuaPattern.strFind s p.toList init false = .vals vs ∧
       ∃ N, ∀ fuel, N ≤ fuel → Gsub.luaFind fuel s p init false = .vals vs := by
-  obtain ⟨P, hb, hp⟩ := patRel_of_build p pat hparse hasc (parse_wf p.toList pat hparse hnp) hsize
+  obtain ⟨P, hb, hp⟩ := patRel_of_build p pat hparse (parse_wf p.toList pat hparse) hsize
   unfold LuaPattern.strFind Gsub.luaFind
   simp only [Bool.false_eq_true, if_false, Bool.false_or, hne, decide_false, startIndex_eq]
   by_cases hi : LuaPattern.normInit s.size init > s.size
@@ -304,41 +304,46 @@ theorem luaFind_refines (p : Array UInt8) (s : Subject) (init : Int) (pat : LuaP
     cases hf : LuaPattern.findParsed pat s (LuaPattern.normInit s.size init) with
     | none =>
       refine ⟨_, rfl, N, fun fuel hle => ?_⟩
-      obtain ⟨h1, _, h3⟩ := hN fuel hle
+      obtain ⟨h1, h2, h3⟩ := hN fuel hle
       rw [hf] at h1
-      simp only [h3, Bool.false_eq_true, if_false, h1, Option.map]
+      simp only [h3, h2, Bool.false_eq_true, if_false, h1, Option.map]
     | some m =>
       obtain ⟨g1, g2, g3, g4⟩ := findParsed_ok P s pat hp _ hi' m hf
       refine ⟨_, rfl, N, fun fuel hle => ?_⟩
-      obtain ⟨h1, _, h3⟩ := hN fuel hle
+      obtain ⟨h1, h2, h3⟩ := hN fuel hle
       rw [hf] at h1
-      simp only [h3, Bool.false_eq_true, if_false, h1, Option.map, toCaptures, Gsub.extraCaptures, List.drop_succ_cons,
+      simp only [h3, h2, Bool.false_eq_true, if_false, h1, Option.map, toCaptures, Gsub.extraCaptures, List.drop_succ_cons,
         List.drop_zero, mapM_captureValue s m.caps g4]
 
-/-- LUA-LEVEL `string.match(s, p, init)` for `init` not beyond `#s + 1` (beyond it the mirror — and golua — can slice
-    out of range: `match_init_beyond_end_counterexample`) -/
+/-- LUA-LEVEL `string.match(s, p, init)`, for every `init` -/
 theorem luaMatch_refines (p : Array UInt8) (s : Subject) (init : Int) (pat : LuaPattern.Pat)
-    (hparse : LuaPattern.parse p.toList = .ok pat) (hasc : NoDescendingRange pat) (hnp : NoPosBackref pat.items)
-    (hsize : p.size ≤ Generated.ByteSetTable.maxPatternSize) (hin : LuaPattern.normInit s.size init ≤ s.size) :
+    (hparse : LuaPattern.parse p.toList = .ok pat)
+    (hsize : p.size ≤ Generated.ByteSetTable.maxPatternSize) :
     ∃ vs, LuaPattern.strMatch s p.toList init = .vals vs ∧
       ∃ N, ∀ fuel, N ≤ fuel → Gsub.luaMatch fuel s p init = .vals vs := by
-  obtain ⟨P, hb, hp⟩ := patRel_of_build p pat hparse hasc (parse_wf p.toList pat hparse hnp) hsize
+  obtain ⟨P, hb, hp⟩ := patRel_of_build p pat hparse (parse_wf p.toList pat hparse) hsize
   unfold LuaPattern.strMatch Gsub.luaMatch
-  have hi : ¬ (LuaPattern.normInit s.size init > s.size) := by omega
-  simp only [hi, if_false, LuaPattern.withPat, hparse, hb, startIndex_eq]
+  simp only [startIndex_eq]
+  by_cases hi : LuaPattern.normInit s.size init > s.size
+  · have : ((LuaPattern.normInit s.size init : Nat) : Int) > (s.size : Int) := by omega
+    simp only [hi, this, if_true, LuaPattern.beyondEnd, hparse]
+    exact ⟨_, rfl, 0, fun _ _ => rfl⟩
+  have hin : LuaPattern.normInit s.size init ≤ s.size := by omega
+  have hi2 : ¬ (((LuaPattern.normInit s.size init : Nat) : Int) > (s.size : Int)) := by omega
+  simp only [hi, hi2, if_false, LuaPattern.withPat, hparse, hb]
   obtain ⟨N, hN⟩ := matchFromStart_refines P s pat hp _ hin
   cases hf : LuaPattern.findParsed pat s (LuaPattern.normInit s.size init) with
   | none =>
     refine ⟨_, rfl, N, fun fuel hle => ?_⟩
-    obtain ⟨h1, _, h3⟩ := hN fuel hle
+    obtain ⟨h1, h2, h3⟩ := hN fuel hle
     rw [hf] at h1
-    simp only [h3, Bool.false_eq_true, if_false, h1, Option.map, Gsub.pushCaptures, Gsub.ofExcept]
+    simp only [h3, h2, Bool.false_eq_true, if_false, h1, Option.map, Gsub.pushCaptures, Gsub.ofExcept]
   | some m =>
     obtain ⟨g1, g2, g3, g4⟩ := findParsed_ok P s pat hp _ hin m hf
     refine ⟨_, rfl, N, fun fuel hle => ?_⟩
-    obtain ⟨h1, _, h3⟩ := hN fuel hle
+    obtain ⟨h1, h2, h3⟩ := hN fuel hle
     rw [hf] at h1
-    simp only [h3, Bool.false_eq_true, if_false, h1, Option.map, toCaptures, LuaPattern.capValues]
+    simp only [h3, h2, Bool.false_eq_true, if_false, h1, Option.map, toCaptures, LuaPattern.capValues]
     cases hc : m.caps with
     | nil =>
       simp only [List.map_nil, Gsub.pushCaptures, List.isEmpty_nil, if_true]
